@@ -58,21 +58,23 @@ func (p *recPlugin) at(stage string) *erpc.Status {
 	return nil
 }
 
-func (p *recPlugin) PreWriteCall(erpc.WriteCtx) *erpc.Status       { return p.at("PreWriteCall") }
-func (p *recPlugin) PostWriteCall(erpc.WriteCtx) *erpc.Status      { return p.at("PostWriteCall") }
-func (p *recPlugin) PreWritePush(erpc.WriteCtx) *erpc.Status       { return p.at("PreWritePush") }
-func (p *recPlugin) PostWritePush(erpc.WriteCtx) *erpc.Status      { return p.at("PostWritePush") }
-func (p *recPlugin) PreWriteReply(erpc.WriteCtx) *erpc.Status      { return p.at("PreWriteReply") }
-func (p *recPlugin) PostWriteReply(erpc.WriteCtx) *erpc.Status     { return p.at("PostWriteReply") }
-func (p *recPlugin) PostReadCallHeader(erpc.ReadCtx) *erpc.Status  { return p.at("PostReadCallHeader") }
-func (p *recPlugin) PreReadCallBody(erpc.ReadCtx) *erpc.Status     { return p.at("PreReadCallBody") }
-func (p *recPlugin) PostReadCallBody(erpc.ReadCtx) *erpc.Status    { return p.at("PostReadCallBody") }
-func (p *recPlugin) PostReadPushHeader(erpc.ReadCtx) *erpc.Status  { return p.at("PostReadPushHeader") }
-func (p *recPlugin) PreReadPushBody(erpc.ReadCtx) *erpc.Status     { return p.at("PreReadPushBody") }
-func (p *recPlugin) PostReadPushBody(erpc.ReadCtx) *erpc.Status    { return p.at("PostReadPushBody") }
-func (p *recPlugin) PostReadReplyHeader(erpc.ReadCtx) *erpc.Status { return p.at("PostReadReplyHeader") }
-func (p *recPlugin) PreReadReplyBody(erpc.ReadCtx) *erpc.Status    { return p.at("PreReadReplyBody") }
-func (p *recPlugin) PostReadReplyBody(erpc.ReadCtx) *erpc.Status   { return p.at("PostReadReplyBody") }
+func (p *recPlugin) PreWriteCall(erpc.WriteCtx) *erpc.Status      { return p.at("PreWriteCall") }
+func (p *recPlugin) PostWriteCall(erpc.WriteCtx) *erpc.Status     { return p.at("PostWriteCall") }
+func (p *recPlugin) PreWritePush(erpc.WriteCtx) *erpc.Status      { return p.at("PreWritePush") }
+func (p *recPlugin) PostWritePush(erpc.WriteCtx) *erpc.Status     { return p.at("PostWritePush") }
+func (p *recPlugin) PreWriteReply(erpc.WriteCtx) *erpc.Status     { return p.at("PreWriteReply") }
+func (p *recPlugin) PostWriteReply(erpc.WriteCtx) *erpc.Status    { return p.at("PostWriteReply") }
+func (p *recPlugin) PostReadCallHeader(erpc.ReadCtx) *erpc.Status { return p.at("PostReadCallHeader") }
+func (p *recPlugin) PreReadCallBody(erpc.ReadCtx) *erpc.Status    { return p.at("PreReadCallBody") }
+func (p *recPlugin) PostReadCallBody(erpc.ReadCtx) *erpc.Status   { return p.at("PostReadCallBody") }
+func (p *recPlugin) PostReadPushHeader(erpc.ReadCtx) *erpc.Status { return p.at("PostReadPushHeader") }
+func (p *recPlugin) PreReadPushBody(erpc.ReadCtx) *erpc.Status    { return p.at("PreReadPushBody") }
+func (p *recPlugin) PostReadPushBody(erpc.ReadCtx) *erpc.Status   { return p.at("PostReadPushBody") }
+func (p *recPlugin) PostReadReplyHeader(erpc.ReadCtx) *erpc.Status {
+	return p.at("PostReadReplyHeader")
+}
+func (p *recPlugin) PreReadReplyBody(erpc.ReadCtx) *erpc.Status  { return p.at("PreReadReplyBody") }
+func (p *recPlugin) PostReadReplyBody(erpc.ReadCtx) *erpc.Status { return p.at("PostReadReplyBody") }
 
 // ---- generated arrangement --------------------------------------------------------------
 
